@@ -150,7 +150,7 @@ func newEventFromTrustedJSONV3(eventJSON []byte, redacted bool, roomVersion IRoo
 
 func newEventFromTrustedJSONWithEventIDV3(eventID string, eventJSON []byte, redacted bool, roomVersion IRoomVersion) (PDU, error) {
 	res := &eventV3{}
-	if err := json.Unmarshal(eventJSON, &res); err != nil {
+	if err := json.Unmarshal(eventJSON, res); err != nil {
 		return nil, err
 	}
 
